@@ -650,7 +650,8 @@ def r_accessors(model, rep):
                msg="" if ok else "accessor %s uses cache field(s) %s, expected only %s" % (name, sorted(touched), field))
         # candidates and class
         if loads:
-            args = loads[0].value[2]
+            lc = [x for x in T.walk(loads[0].value) if x[0] == "call" and x[1] == ("attr", S, "_load_metadata")]
+            args = lc[0][2] if lc else ()
             try:
                 got_names = list(cx.const_of(args[0])) if args else None
             except NotConst:
